@@ -54,7 +54,7 @@ var curated = map[string][]string{
 	"S-req":  {`{items {summary}}`, `{items {id summary volume}}`, `{boxes {content {summary}}}`, `{item(id: "i1") {summary shipping}}`},
 }
 
-var faultKinds = []string{"transport-error", "http-500-empty", "http-200-empty", "http-200-nonjson", "http-502-html", "http-502-html-quotes", "http-500-truncated-json", "http-500-json-other", "http-200-json-other", "errors-without-data", "entities-one-short", "entities-one-long", "entities-empty"}
+var faultKinds = []string{"transport-error", "http-500-empty", "http-200-empty", "http-200-nonjson", "http-502-html", "http-502-html-quotes", "http-500-truncated-json", "http-500-json-other", "http-200-json-other", "errors-without-data", "entities-one-short", "entities-one-long", "entities-empty", "entities-null"}
 
 // partialKind: an entity request answers with data AND an error whose path
 // points at one field of the first entity, which is null ("this subgraph could
@@ -597,6 +597,13 @@ func judgeFault(f *family, lab *fedlab.Lab, q string, b *baseline, F []string, k
 			partial = true
 			e0[fname] = nil
 			m["errors"] = []any{map[string]any{"message": "could not resolve " + fname, "path": []any{"_entities", firstIndex(ents), fname}}}
+		case "entities-null":
+			// {"data":{"_entities":null}} without errors: neither entities nor a reason
+			if len(ents) == 0 {
+				return 200, body
+			}
+			applicable = true
+			d["_entities"] = nil
 		case "entities-one-short":
 			if len(ents) == 0 {
 				return 200, body
